@@ -285,7 +285,9 @@ func (e *vestEnv) observe(c *fw.Case, o *txOutcome) {
 		}
 		if k, okk := e.keys[op.to]; okk {
 			e.cvaKeys = append(e.cvaKeys, k)
-			e.bounds = append(e.bounds, time.Unix(op.start, 0), time.Unix(op.end, 0))
+			if op.end < int64(1)<<40 {
+				e.bounds = append(e.bounds, time.Unix(op.start, 0), time.Unix(op.end, 0))
+			}
 		}
 		e.cov["accounts_created_directly"]++
 	case "split", "move", "move-denoms":
